@@ -26,6 +26,15 @@ func Root() string {
 	return "/verif"
 }
 
+// OutRoot is where evidence and replay artefacts are written: /verif, unless a development run
+// against a scratch tree redirects it (VERIF_OUT).
+func OutRoot() string {
+	if r := os.Getenv("VERIF_OUT"); r != "" {
+		return r
+	}
+	return Root()
+}
+
 func Tier() string {
 	t := os.Getenv("VERIF_TIER")
 	if t != "thorough" {
@@ -160,7 +169,7 @@ func (r *Report) Set(key string, v any) { r.mu.Lock(); r.Coverage[key] = v; r.mu
 func (r *Report) Finish() int {
 	r.mu.Lock()
 	defer r.mu.Unlock()
-	root := Root()
+	root := OutRoot()
 	violations := 0
 	knownHit := []string{}
 	newKeys := []string{}
